@@ -307,6 +307,11 @@ fn main() -> Result<()> {
         {
             return Err(XcpError::InvalidDestination("Cannot copy a directory to a file.").into());
         }
+        // Nor can anything but a directory replace a directory.
+        let as_dir = if opts.dereference { is_dir(source)? } else { source.symlink_metadata()?.is_dir() };
+        if !as_dir && target_base.symlink_metadata().map(|m| m.is_dir()).unwrap_or(false) {
+            return Err(XcpError::InvalidDestination("Cannot copy a file to a directory.").into());
+        }
         targets.push(target_base);
     }
 
